@@ -300,7 +300,44 @@ def obligations(tier):
                     obs.append(Obligation(f"line-{rec}-{'+'.join(focus)}-n{name_len}-{tail}", h_line, dict(rec=rec, focus=focus, name_len=name_len, tail=tail), group="line", time_cap=1200))
     obs += _drop_name_obligations()
     obs += _model_label_obligations(tier)
+    obs.append(Obligation("alternate-names-unambiguous", table_altnames, {}, kind="table", group="altnames"))
     return obs
+
+
+def table_altnames():
+    """the alternate spellings pdb2pqr accepts (AA.xml / NA.xml <altname>) are unambiguous for heavy atoms: within one
+    residue an alternate name belongs to one atom and is not another atom's canonical name - otherwise the record of
+    the second atom is renamed onto the first and silently discarded at ingestion.  Independent XML parse, then the
+    real Definition is asked the same question."""
+    import collections
+    import os
+    import xml.etree.ElementTree as ET
+
+    from symx.run import REPO
+
+    rows, violations = 0, []
+    defn = fixtures.pristine_definition()
+    for fname in ("AA.xml", "NA.xml"):
+        root = ET.parse(os.path.join(REPO, "pdb2pqr", "dat", fname)).getroot()
+        for res in root.iter("residue"):
+            rn = res.findtext("name")
+            names = [a.findtext("name") for a in res.findall("atom")]
+            alts = collections.defaultdict(list)
+            for a in res.findall("atom"):
+                for an in a.findall("altname"):
+                    alts[an.text].append(a.findtext("name"))
+            for alt, owners in alts.items():
+                if all(o.startswith("H") for o in owners):
+                    continue
+                rows += 1
+                case = {"file": fname, "residue": rn, "alternate_name": alt}
+                if len(set(owners)) > 1 or (alt in names and alt not in owners):
+                    violations.append({"label": "alternate-name-unambiguous", "values": case, "reproduced": True, "replay_detail": f"{fname} {rn}: alternate name {alt} is declared for {sorted(set(owners))}" + (f" and is the canonical name of another atom" if alt in names and alt not in owners else "")})
+                    continue
+                real = defn.map.get(rn)
+                if real is not None and real.altnames.get(alt) != owners[0]:
+                    violations.append({"label": "alternate-name-unambiguous", "values": case, "reproduced": True, "replay_detail": f"{fname} {rn}: the definition translates {alt} to {real.altnames.get(alt)}, the file declares it for {owners[0]}"})
+    return {"table_rows": rows, "distinct": rows, "violations": violations, "samples": [{"rows": rows}]}
 
 
 def _model_label_obligations(tier):
